@@ -119,6 +119,7 @@ type Cluster struct {
 	// PoolsMode scripts GET /pools: "" (200 + Version), "error" (500), "garbage" (200 + non-JSON)
 	PoolsMode string
 	controls  []DcpControl
+	epoch     int
 	connCtr   int
 
 	// MgmtMode scripts the management endpoint: "" (200), "error" (500), "silent" (no answer).
@@ -369,6 +370,15 @@ func (c *Cluster) BumpRev() {
 	c.mu.Unlock()
 }
 
+// BumpEpoch starts a new revision epoch (as an unsafe failover does); the revision counter restarts at rev, which
+// may be lower than the last one of the previous epoch.
+func (c *Cluster) BumpEpoch(rev int) {
+	c.mu.Lock()
+	c.epoch++
+	c.rev = rev
+	c.mu.Unlock()
+}
+
 func (c *Cluster) config(self int) []byte {
 	var serverList []string
 	var nodesExt, nodes []any
@@ -385,7 +395,7 @@ func (c *Cluster) config(self int) []byte {
 		nodes = append(nodes, map[string]any{"hostname": fmt.Sprintf("$HOST:%d", n.MgmtPort), "ports": map[string]int{"direct": n.Port}})
 	}
 	cfg := map[string]any{
-		"rev": c.rev, "revEpoch": 1, "name": "b", "nodeLocator": "vbucket", "uuid": c.BucketUUID,
+		"rev": c.rev, "revEpoch": 1 + c.epoch, "name": "b", "nodeLocator": "vbucket", "uuid": c.BucketUUID,
 		"bucketCapabilities":     []string{"collections", "durableWrite", "dcp", "cbhello", "touch", "cccp", "nodesExt", "xattr"},
 		"collectionsManifestUid": "0",
 		"vBucketServerMap": map[string]any{
